@@ -544,3 +544,177 @@ func runR1812(c *core.Ctx, extractors []*ssa.Function) {
 			strings.Join(bad, "; ")+": the period's observations are counted again with the next period, or its count is reported as 0")
 	}
 }
+
+// runR1813 (R18.13): increments are read-modify-write operations. No value stored through sync/atomic into a metric
+// location is computed from an atomic load of that same location (outside a CompareAndSwap retry loop): "load, add,
+// store" is three atomic accesses but not an atomic increment - an increment another goroutine makes in between is
+// overwritten, and the counter reports less than was applied.
+func runR1813(c *core.Ctx) {
+	c.Rule("R18.13", "no lost updates: a value stored atomically into a metric location is never computed from an atomic load of that same location (use atomic.Add or a CompareAndSwap retry loop)", 2)
+	n := 0
+	sameLoc := func(a, b ssa.Value) bool {
+		a, b = ssax.Unwrap(a), ssax.Unwrap(b)
+		if a == b {
+			return true
+		}
+		ia, ok1 := a.(*ssa.IndexAddr)
+		ib, ok2 := b.(*ssa.IndexAddr)
+		if ok1 && ok2 {
+			ga, gb := ssax.GlobalLoad(ia.X), ssax.GlobalLoad(ib.X)
+			if ga == nil {
+				ga = globalArray(ia.X)
+			}
+			if gb == nil {
+				gb = globalArray(ib.X)
+			}
+			return ga != nil && ga == gb && ssax.Unwrap(ia.Index) == ssax.Unwrap(ib.Index)
+		}
+		fa, ok1 := a.(*ssa.FieldAddr)
+		fb, ok2 := b.(*ssa.FieldAddr)
+		if ok1 && ok2 {
+			return fa.Field == fb.Field && sameLocBase(fa.X, fb.X)
+		}
+		return false
+	}
+	for _, fn := range pkgFuncs(c, "metrics") {
+		counts := map[string]int{}
+		ssax.Instrs(fn, func(ins ssa.Instruction) {
+			cc := ssax.CallOf(ins)
+			if cc == nil || !strings.HasPrefix(ssax.CalleeName(cc), "sync/atomic.Store") || len(cc.Args) < 2 {
+				return
+			}
+			n++
+			key := ordinalKey(counts, core.FuncName(fn)+"#atomic-store")
+			// backward slice of the stored value: an atomic load of the same location?
+			lost := ""
+			seen := map[ssa.Value]bool{}
+			var walk func(v ssa.Value, d int)
+			walk = func(v ssa.Value, d int) {
+				if v == nil || seen[v] || d > 10 || lost != "" {
+					return
+				}
+				seen[v] = true
+				if call, ok := v.(*ssa.Call); ok && strings.HasPrefix(ssax.CalleeName(&call.Call), "sync/atomic.Load") && sameLoc(call.Call.Args[0], cc.Args[0]) {
+					lost = c.P.Pos(call.Pos())
+					return
+				}
+				if i, ok := v.(ssa.Instruction); ok {
+					for _, op := range i.Operands(nil) {
+						if op != nil && *op != nil {
+							walk(*op, d+1)
+						}
+					}
+				}
+			}
+			walk(cc.Args[1], 0)
+			c.Check(lost == "", "R18.13", key, c.P.Pos(ins.Pos()), "the stored value does not depend on a load of the same location",
+				"the value stored here is computed from the atomic load of the same location at "+lost+": load and store are each atomic, the update is not - increments made by other goroutines in between are lost")
+		})
+	}
+	if n == 0 {
+		c.Info("R18.13", "metrics#atomic-stores", "-", "no atomic store in the metrics package")
+	}
+}
+
+func sameLocBase(a, b ssa.Value) bool {
+	a, b = ssax.Unwrap(a), ssax.Unwrap(b)
+	if a == b {
+		return true
+	}
+	ia, ok1 := a.(*ssa.IndexAddr)
+	ib, ok2 := b.(*ssa.IndexAddr)
+	if ok1 && ok2 {
+		return ssax.GlobalLoad(ia.X) != nil && ssax.GlobalLoad(ia.X) == ssax.GlobalLoad(ib.X) && ssax.Unwrap(ia.Index) == ssax.Unwrap(ib.Index)
+	}
+	return false
+}
+
+// runR1814 (R18.14): the bucket of an observation is a non-decreasing function of the value only if the table that
+// maps a power-of-4 range to its first bucket is strictly increasing. Every constant integer table the bucket function
+// indexes is checked entry by entry (a transposed pair of digits sends a whole range of values to lower buckets).
+func runR1814(c *core.Ctx) {
+	c.Rule("R18.14", "every constant integer table the bucket function indexes is strictly increasing", 1)
+	fn := findFunc(c, "metrics", "getBucket", roleBucketFn)
+	if fn == nil {
+		c.Undecided("R18.14", "metrics.getBucket", "-", "bucket function not found")
+		return
+	}
+	n := 0
+	ssax.Instrs(fn, func(ins ssa.Instruction) {
+		ia, ok := ins.(*ssa.IndexAddr)
+		if !ok {
+			return
+		}
+		g := globalArray(ia.X)
+		if g == nil {
+			g = ssax.GlobalLoad(ia.X)
+		}
+		if g == nil {
+			return
+		}
+		// the table's initial values: constant stores into its elements in the package initialiser
+		vals := map[int64]int64{}
+		for _, f := range pkgFuncs(c, "metrics") {
+			if f.Name() != "init" && !strings.HasPrefix(f.Name(), "init#") {
+				continue
+			}
+			ssax.Instrs(f, func(i2 ssa.Instruction) {
+				st, ok := i2.(*ssa.Store)
+				if !ok {
+					return
+				}
+				e, ok := st.Addr.(*ssa.IndexAddr)
+				if !ok {
+					return
+				}
+				base := ssax.Unwrap(e.X)
+				if base != ssa.Value(g) {
+					// composite literal built in a temporary then stored: follow one level
+					if al, isAl := base.(*ssa.Alloc); isAl {
+						stored := false
+						for _, r := range *al.Referrers() {
+							if s2, ok := r.(*ssa.Store); ok && s2.Addr == ssa.Value(g) {
+								stored = true
+							}
+							if u, ok := r.(*ssa.UnOp); ok {
+								for _, rr := range *u.Referrers() {
+									if s2, ok := rr.(*ssa.Store); ok && s2.Addr == ssa.Value(g) {
+										stored = true
+									}
+								}
+							}
+						}
+						if !stored {
+							return
+						}
+					} else {
+						return
+					}
+				}
+				idx, ok1 := ssax.ConstInt(e.Index)
+				v, ok2 := ssax.ConstInt(st.Val)
+				if ok1 && ok2 {
+					vals[idx] = v
+				}
+			})
+		}
+		if len(vals) < 2 {
+			return
+		}
+		n++
+		key := "metrics." + g.Name() + "#strictly-increasing"
+		var bad []string
+		for i := int64(1); i < int64(len(vals)); i++ {
+			a, okA := vals[i-1]
+			b, okB := vals[i]
+			if okA && okB && b <= a {
+				bad = append(bad, fmt.Sprintf("entry %d is %d, not above entry %d (%d)", i, b, i-1, a))
+			}
+		}
+		c.Check(len(bad) == 0, "R18.14", key, c.P.Pos(ia.Pos()), fmt.Sprintf("%d entries, strictly increasing", len(vals)),
+			strings.Join(bad, "; ")+": values of that power-of-4 range are counted in lower buckets than smaller values - the bucket is no longer a non-decreasing function of the value and its upper bound lies below the value")
+	})
+	if n == 0 {
+		c.Undecided("R18.14", "metrics.getBucket#tables", c.P.Pos(fn.Pos()), "the bucket function indexes no constant integer table (or its initial values could not be read)")
+	}
+}
